@@ -89,6 +89,8 @@ def make_units(tier):
             if u['shard'][0] != 0:
                 continue
             u = dict(u, bound=1, shard=[0, 1])
+        if tier == 'quick' and u.get('policy') == 'app-first-batch' and u['fs'] is None:
+            continue
         units.append(dict(u, src='c01', monitors=['legality']))
     for u in c10._base_make_units(tier):
         if tier == 'quick' and u.get('policy') == 'app-first-batch' and u['fs'] is None:
